@@ -928,6 +928,130 @@ fn body_templates(ch: &Ch) -> Run {
   run
 }
 
+// ---------------------------------------------------------------------------
+// WebAssembly modules: their imports are dependencies
+
+/// what one generated wasm module imports: (module specifier text, field, kind)
+pub const WASM_KINDS: &[&str] = &["func", "memory", "table", "global", "tag"];
+pub const WASM_FROM: &[&str] = &["./a.ts", "./b.ts", "./missing.ts", "./a.ts#frag"];
+
+/// Encodes a minimal wasm binary with the given imports and one exported function.
+pub fn wasm_binary(imports: &[(&str, &str, &str)]) -> Vec<u8> {
+  fn name(out: &mut Vec<u8>, s: &str) {
+    out.push(s.len() as u8);
+    out.extend_from_slice(s.as_bytes());
+  }
+  let mut b: Vec<u8> = b"\0asm\x01\0\0\0".to_vec();
+  // type section: one type () -> ()
+  b.extend_from_slice(&[0x01, 0x04, 0x01, 0x60, 0x00, 0x00]);
+  // import section
+  let mut sec: Vec<u8> = vec![imports.len() as u8];
+  for (m, f, k) in imports {
+    name(&mut sec, m);
+    name(&mut sec, f);
+    match *k {
+      "func" => sec.extend_from_slice(&[0x00, 0x00]),
+      "table" => sec.extend_from_slice(&[0x01, 0x70, 0x00, 0x00]),
+      "memory" => sec.extend_from_slice(&[0x02, 0x00, 0x01]),
+      "global" => sec.extend_from_slice(&[0x03, 0x7F, 0x00]),
+      _ => sec.extend_from_slice(&[0x04, 0x00, 0x00]),
+    }
+  }
+  b.push(0x02);
+  b.push(sec.len() as u8);
+  b.extend_from_slice(&sec);
+  // function section: one function of type 0
+  b.extend_from_slice(&[0x03, 0x02, 0x01, 0x00]);
+  // export section: "run" -> func index = number of imported functions
+  let n_func_imports = imports.iter().filter(|(_, _, k)| *k == "func").count() as u8;
+  b.extend_from_slice(&[0x07, 0x07, 0x01, 0x03, b'r', b'u', b'n', 0x00, n_func_imports]);
+  // code section: one empty body
+  b.extend_from_slice(&[0x0A, 0x04, 0x01, 0x02, 0x00, 0x0B]);
+  b
+}
+
+pub struct WasmWorld {
+  pub imports: Vec<(&'static str, &'static str, &'static str)>,
+  pub via_ts: bool,
+  pub describe: Value,
+}
+
+/// Installs a wasm module m.wasm with <= 3 generated imports, a.ts and b.ts
+/// (missing.ts is absent), and optionally main.ts importing the wasm module.
+pub fn wasm_world(ch: &Ch, loader: &ScriptedLoader) -> (WasmWorld, ModuleSpecifier) {
+  let n = ch.shape("wasm_imports", 4);
+  let mut imports = vec![];
+  for i in 0..n {
+    let from = WASM_FROM[ch.shape("wasm_import_from", WASM_FROM.len())];
+    let kind = WASM_KINDS[ch.shape("wasm_import_kind", WASM_KINDS.len())];
+    imports.push((from, ["f0", "f1", "f2"][i], kind));
+  }
+  let via_ts = ch.flag("wasm_imported_by_a_typescript_module");
+  loader.add("https://x/m.wasm", Entry::bytes(&wasm_binary(&imports)));
+  loader.add_text("https://x/a.ts", "export function f0(): void {}\nexport const f1 = 1;\nexport const f2 = 2;\n");
+  loader.add_text("https://x/b.ts", "export function f0(): void {}\nexport const f1 = 1;\nexport const f2 = 2;\n");
+  loader.add_text("https://x/main.ts", "import { run } from \"./m.wasm\";\nrun();\n");
+  let root = url(if via_ts { "https://x/main.ts" } else { "https://x/m.wasm" });
+  let describe = json!({"wasm_imports": imports.iter().map(|(m, f, k)| json!({"module": m, "name": f, "kind": k})).collect::<Vec<_>>(), "root": root.as_str()});
+  (WasmWorld { imports, via_ts, describe }, root)
+}
+
+fn body_wasm(ch: &Ch) -> Run {
+  let mut run = Run::default();
+  let kind = *ch.pick("graph_kind", &[GraphKind::All, GraphKind::CodeOnly, GraphKind::TypesOnly]);
+  let sched = Sched::new(SchedMode::Immediate);
+  let loader = ScriptedLoader::new(sched);
+  let (w, root) = wasm_world(ch, &loader);
+  let mut g = ModuleGraph::new(kind);
+  if build_graph(&mut g, vec![root.clone()], &loader, BuildCfg::default(), ch).is_err() {
+    run.violate("build-did-not-finish", "deadlock", w.describe.clone());
+    return run;
+  }
+  run.evals = 1;
+  let case = |extra: Value| json!({"world": w.describe, "graph_kind": format!("{kind:?}"), "detail": extra});
+  let wasm_url = url("https://x/m.wasm");
+  let want_deps: BTreeSet<String> = w.imports.iter().map(|(m, _, _)| m.to_string()).collect();
+  match g.get(&wasm_url) {
+    Some(m @ deno_graph::Module::Wasm(_)) => {
+      let got: BTreeSet<String> = m.dependencies().keys().cloned().collect();
+      if got != want_deps {
+        run.violate(
+          "wasm-dependencies-differ-from-its-imports",
+          format!("m.wasm imports from {want_deps:?}; recorded dependencies {got:?}"),
+          case(json!({})),
+        );
+      }
+    }
+    other => {
+      run.violate("wasm-module-not-loaded-as-wasm", format!("entry of m.wasm: {:?}", other.map(|m| m.specifier().as_str())), case(json!({})));
+    }
+  }
+  // closure
+  let mut want: BTreeSet<String> = BTreeSet::new();
+  want.insert(root.to_string());
+  want.insert(wasm_url.to_string());
+  for d in &want_deps {
+    want.insert(wasm_url.join(d).unwrap().to_string());
+  }
+  let have: BTreeSet<String> = g.specifiers().map(|(s, _)| s.to_string()).collect();
+  if have != want {
+    let extra: Vec<_> = have.difference(&want).cloned().collect();
+    let lacking: Vec<_> = want.difference(&have).cloned().collect();
+    run.violate(
+      format!("graph-is-not-the-closure@{kind:?}:{}", if extra.is_empty() { "reachable-absent" } else if lacking.is_empty() { "unreachable-present" } else { "both" }),
+      format!("present but not reachable: {extra:?}; reachable but absent: {lacking:?}"),
+      case(json!({})),
+    );
+  }
+  run.state_key = hash_of(&(format!("{:?}{kind:?}", w.imports), w.via_ts));
+  run.nontrivial = !w.imports.is_empty();
+  run.outcome_key = hash_of(&have);
+  if ch.describe() {
+    run.sample = Some(case(json!({"present": have})));
+  }
+  run
+}
+
 pub fn prop(tier: Tier) -> Prop {
   let parts = match tier {
     Tier::Quick => vec![
@@ -971,6 +1095,12 @@ pub fn prop(tier: Tier) -> Prop {
     body: Box::new(body_templates),
     modes: vec![Mode::Full],
     what: "template-literal dynamic imports expanded against a directory tree (19 files incl. hidden / node_modules / vendor directories, JSON, declaration and text files): 18 templates x 2 importing modules x 3 graph kinds x skip_dynamic_deps x an additional static import; recorded dynamic dependencies and the loaded set vs a reference of what the template stands for",
+  });
+  parts.push(Part {
+    name: "wasm-imports",
+    body: Box::new(body_wasm),
+    modes: vec![Mode::Full],
+    what: "generated WebAssembly binaries with <= 3 imports (function, memory, table, global, tag) from present / absent / fragment-carrying specifiers, as root or imported by a TypeScript module, 3 graph kinds: recorded dependencies = the modules it imports from, loaded set = closure",
   });
   Prop {
     id: "C01",
